@@ -1,6 +1,8 @@
 import VaxisModel.Driver.Common
 import VaxisModel.Model.TextField
 import VaxisModel.Model.TextInput
+import VaxisModel.Model.TextFieldCl
+import VaxisModel.Model.TextInputCl
 import VaxisModel.Spec.Editor
 
 /-! Driver for C17 (op format: harness/cmd/C17/main.go).  State per case: the widget model, and the
@@ -19,6 +21,12 @@ structure St where
   ti : TextInput.TI Nat := TextInput.new
   ed : Ed Nat := ⟨[], 0⟩
   dead : Bool := false      -- model panicked / hung earlier in this case
+  -- kinds tfc / tic: texts of atoms (code points) whose graphemes can merge
+  classes : Array Char := #[]          -- grapheme-break class of each atom (header `k=`)
+  cw : List (List Nat × Nat) := []     -- display width of the clusters seen so far (op field `W=`)
+  tfc : TextFieldCl.TF Nat := TextFieldCl.new
+  tic : TextInputCl.TIC Nat := TextInputCl.new
+  edc : Ed (List Nat) := ⟨[], 0⟩
 
 def St.w (s : St) (g : Nat) : Nat := s.widths.getD g 1
 def St.isWord (s : St) (g : Nat) : Bool := s.words.getD g false
@@ -168,6 +176,196 @@ def stepTI (s : St) (op : List String) (impl : String) : St × String :=
     | _, _ => (s, "bad-op\tbad-op\tbad-op")
   | _ => (s, "bad-op\tbad-op\tbad-op")
 
+/-! ### kinds `tfc` / `tic`: merging graphemes
+
+`clUax` is the driver's segmentation oracle: the extended-grapheme-cluster rules of UAX #29 that
+matter for the harness atoms (GB6–8 Hangul jamo, GB9 Extend/ZWJ, GB11 emoji ZWJ sequences, GB12/13
+regional-indicator pairs) over the class of each atom given in the case header.  It is compared with
+the real uniseg on every op (the `v=` field of the implementation is uniseg's segmentation). -/
+
+structure SegSt where
+  cur : List Nat := []           -- current cluster, reversed
+  done : List (List Nat) := []   -- finished clusters, reversed
+  prev : Char := '-'             -- class of the previous atom
+  pictExt : Bool := false        -- current cluster matches ExtPict Extend*
+  pictZwj : Bool := false        -- … ExtPict Extend* ZWJ
+  riRun : Nat := 0               -- regional indicators directly before
+
+def segStep (cls : Nat → Char) (st : SegSt) (a : Nat) : SegSt :=
+  let c := cls a
+  let join : Bool :=
+    st.prev != '-' &&
+    ((st.prev == 'L' && (c == 'L' || c == 'V')) ||
+     (st.prev == 'V' && (c == 'V' || c == 'T')) ||
+     (st.prev == 'T' && c == 'T') ||
+     c == 'E' || c == 'Z' ||
+     (st.pictZwj && c == 'P') ||
+     (st.prev == 'R' && c == 'R' && st.riRun % 2 == 1))
+  let pictExt := if c == 'P' then true else if c == 'E' then join && st.pictExt else false
+  let pictZwj := c == 'Z' && join && st.pictExt
+  let riRun := if c == 'R' then st.riRun + 1 else 0
+  if join then { st with cur := a :: st.cur, prev := c, pictExt := pictExt, pictZwj := pictZwj, riRun := riRun }
+  else { cur := [a], done := if st.cur.isEmpty then st.done else st.cur.reverse :: st.done,
+         prev := c, pictExt := pictExt, pictZwj := pictZwj, riRun := riRun }
+
+def clUax (cls : Nat → Char) (x : List Nat) : List (List Nat) :=
+  let st := x.foldl (segStep cls) {}
+  (if st.cur.isEmpty then st.done else st.cur.reverse :: st.done).reverse
+
+def St.cls (s : St) (a : Nat) : Char := s.classes.getD a 'O'
+def St.cl (s : St) : List Nat → List (List Nat) := clUax s.cls
+/-- `isAlphaNumeric` of a character: a single rune that is a letter or number. -/
+def St.isWordC (s : St) : List Nat → Bool
+  | [a] => s.words.getD a false
+  | _ => false
+def St.cwidth (s : St) (c : List Nat) : Nat := ((s.cw.find? (·.1 == c)).map (·.2)).getD 1
+
+def showClusters (l : List (List Nat)) : String :=
+  if l.isEmpty then "-" else ",".intercalate (l.map fun c => "+".intercalate (c.map toString))
+def clusters? (t : String) : Option (List (List Nat)) :=
+  if t = "" ∨ t = "-" then some [] else (t.splitOn ",").mapM fun c => (c.splitOn "+").mapM (·.toNat?)
+
+def showCbC : Callback (List Nat) → String
+  | .change t => "C" ++ showClusters t
+  | .submit t => "S" ++ showClusters t
+
+def widthOfC (s : St) (l : List (List Nat)) : Nat := (l.map s.cwidth).foldl (· + ·) 0
+
+def meaningC? (s : St) (m : String) (text : List Nat) : Option (Op (List Nat)) :=
+  match m with
+  | "insert" => some (.insert (s.cl text))
+  | "home" => some .home
+  | "end" => some .toEnd
+  | "right" => some .right
+  | "left" => some .left
+  | "delr" => some .deleteRight
+  | "dell" => some .deleteLeft
+  | "kill" => some .killToEnd
+  | "killstart" => some .killToStart
+  | "delword" => some .deleteWordLeft
+  | "wordleft" => some .wordLeft
+  | "wordright" => some .wordRight
+  | "submit" => some .submit
+  | "noop" => some .noop
+  | _ => none
+
+/-- Learn the widths of the implementation's clusters: `v=<clusters>` of the observation zipped
+with the op field `W=<widths>` (computed by the harness with the real `vaxis.Characters`). -/
+def learnWidths (s : St) (wf : Option String) (impl : String) : St :=
+  match wf with
+  | none => s
+  | some w =>
+    let v := ((fields impl).find? (·.startsWith "v=")).map fun f => (f.drop 2).toString
+    match v.bind clusters?, commaNats? ((w.drop 2).toString) with
+    | some cs, some ws => { s with cw := (cs.zip ws) ++ s.cw.take 64 }
+    | _, _ => s
+
+def tfcCanon (s : St) (tf : TextFieldCl.TF Nat) (cbs : List (TextFieldCl.Call Nat)) : String :=
+  let shc : TextFieldCl.Call Nat → String
+    | .change t => "C" ++ showClusters (s.cl t)
+    | .submit t => "S" ++ showClusters (s.cl t)
+  s!"v={showClusters (s.cl tf.value)} col={(TextFieldCl.drawCursorCol s.cl s.cwidth tf).toNat} cb={showLog (cbs.map shc)}"
+
+def tfcExpect (s : St) (ed : Ed (List Nat)) (cbs : List (Callback (List Nat))) : String :=
+  s!"v={showClusters ed.text} col={widthOfC s (ed.text.take ed.cursor)} cb={showLog (cbs.map showCbC)}"
+
+def stepTFC (s : St) (op : List String) (impl : String) : St × String :=
+  let isW := s.isWordC
+  let cl := s.cl
+  match op with
+  | ["key", m, rel, bits, text, _name] =>
+    match ids? text with
+    | some t =>
+      match meaningC? s m t with
+      | some sop =>
+        let ev : TextField.KeyEv Nat :=
+          { release := rel == "1", text := t, home := bit bits 0, toEnd := bit bits 1, right := bit bits 2,
+            left := bit bits 3, delRight := bit bits 4, delLeft := bit bits 5, kill := bit bits 6, enter := bit bits 7 }
+        let (tf', cbs) := TextFieldCl.handleKey cl s.tfc ev
+        let ecb := VaxisModel.Spec.Editor.callbacksC cl isW s.edc sop
+        let ed' := VaxisModel.Spec.Editor.applyC cl isW s.edc sop
+        let s' := { s with tfc := tf', edc := ed' }
+        (s', s!"{tfcCanon s' tf' cbs}\t{impl}\t{verdictEq "textfield" impl (tfcExpect s' ed' ecb)}")
+      | none => (s, "bad-op\tbad-op\tbad-op")
+    | none => (s, "bad-op\tbad-op\tbad-op")
+  | ["draw", w, h] =>
+    match w.toNat?, h.toNat? with
+    | some w, some h =>
+      if w = 0 ∨ h = 0 then (s, s!"nocursor\t{impl}\t{verdictEq "draw" impl "nocursor"}")
+      else
+        let col := (TextFieldCl.drawCursorCol cl s.cwidth s.tfc).toNat
+        let want := widthOfC s (s.edc.text.take s.edc.cursor)
+        (s, s!"col={col}\t{impl}\t{verdictEq "cursor_column" impl s!"col={want}"}")
+    | _, _ => (s, "bad-op\tbad-op\tbad-op")
+  | _ =>
+    let r : Option (TextFieldCl.TF Nat × Op (List Nat)) :=
+      match op with
+      | ["ins", t] => (ids? t).map fun t => (TextFieldCl.insertString cl s.tfc t, .insert (cl t))
+      | ["cur", i] => i.toNat?.map fun i => ((TextFieldCl.cursorTo s.tfc i).1, .moveTo i)
+      | ["delr"] => some ((TextFieldCl.deleteRight cl s.tfc).1, .deleteRight)
+      | ["dell"] => some ((TextFieldCl.deleteLeft cl s.tfc).1, .deleteLeft)
+      | ["kill"] => some ((TextFieldCl.killToEnd cl s.tfc).1, .killToEnd)
+      | ["reset"] => some (TextFieldCl.reset s.tfc, .reset)
+      | _ => none
+    match r with
+    | some (tf', sop) =>
+      let ed' := VaxisModel.Spec.Editor.applyC cl isW s.edc sop
+      let s' := { s with tfc := tf', edc := ed' }
+      (s', s!"{tfcCanon s' tf' []}\t{impl}\t{verdictEq "textfield" impl (tfcExpect s' ed' [])}")
+    | none => (s, "bad-op\tbad-op\tbad-op")
+
+def ticCanon (m : TextInputCl.TIC Nat) : String := s!"v={showClusters m.content} cur={m.cursor}"
+def ticExpect (ed : Ed (List Nat)) : String := s!"v={showClusters ed.text} cur={ed.cursor}"
+
+def stepTIC (s : St) (op : List String) (impl : String) : St × String :=
+  let isW := s.isWordC
+  let cl := s.cl
+  if s.dead then (s, s!"dead\t{impl}\t-") else
+  let upd (ev : TextInputCl.Ev Nat) (sop : Op (List Nat)) : St × String :=
+    let ed' := VaxisModel.Spec.Editor.applyC cl isW s.edc sop
+    match TextInputCl.update cl isW s.tic ev with
+    | none => ({ s with dead := true }, s!"panic\t{impl}\t{verdictEq "textinput" impl (ticExpect ed')}")
+    | some m' => ({ s with tic := m', edc := ed' }, s!"{ticCanon m'}\t{impl}\t{verdictEq "textinput" impl (ticExpect ed')}")
+  match op with
+  | ["upd", m, key, mods, text, _name] =>
+    match ids? text with
+    | some t =>
+      match meaningC? s m t with
+      | some sop => upd (.key (hexString key) (bit mods 0) (bit mods 1) (bit mods 2) t) sop
+      | none => (s, "bad-op\tbad-op\tbad-op")
+    | none => (s, "bad-op\tbad-op\tbad-op")
+  | ["rel"] => upd .release .noop
+  | ["pkey", t] =>
+    match ids? t with
+    | some t => upd (.pasteKey t) .noop
+    | none => (s, "bad-op\tbad-op\tbad-op")
+  | ["pend"] => upd .pasteEnd (.insert (cl s.tic.paste))
+  | ["set", t] =>
+    match ids? t with
+    | some t =>
+      let m' := TextInputCl.setContent cl s.tic t
+      let ed' := VaxisModel.Spec.Editor.applyC cl isW s.edc (.setContent (cl t))
+      ({ s with tic := m', edc := ed' }, s!"{ticCanon m'}\t{impl}\t{verdictEq "textinput" impl (ticExpect ed')}")
+    | none => (s, "bad-op\tbad-op\tbad-op")
+  | ["draw", w, _p] =>
+    match w.toNat? with
+    | some w =>
+      if impl = "skipped-after-hang" then (s, s!"-\t-\t-") else
+      let wd : List Nat → Int := fun c => (s.cwidth c : Int)
+      let tw := widthOfC s s.edc.text
+      let fits := tw + 4 < w
+      let v (got : String) : String :=
+        if got = "hang" then "FAIL draw_terminates: textinput.Draw does not return"
+        else if got = "panic" then "FAIL draw panics"
+        else if fits then verdictEq "cursor_column" got s!"col={widthOfC s (s.edc.text.take s.edc.cursor)}"
+        else "ok"
+      match TextInput.draw wd (TextInputCl.toG s.tic) [] w with
+      | .hang => ({ s with dead := true }, s!"hang\t{impl}\t{v impl}")
+      | .early g => ({ s with tic := TextInputCl.ofG g s.tic.paste }, s!"nocursor\t{impl}\t{v impl}")
+      | .shown g c => ({ s with tic := TextInputCl.ofG g s.tic.paste }, s!"col={c}\t{impl}\t{v impl}")
+    | none => (s, "bad-op\tbad-op\tbad-op")
+  | _ => (s, "bad-op\tbad-op\tbad-op")
+
 def parseHeader (fs : List String) : St :=
   let get (p : String) : String := ((fs.find? (·.startsWith p)).map fun f => (f.drop p.length).toString).getD "-"
   let kind := match fs with
@@ -176,10 +374,17 @@ def parseHeader (fs : List String) : St :=
   let widths := ((commaNats? (get "w=")).getD []).toArray
   let words := ((get "a=").toList.map (· == '1')).toArray
   let start := (commaNats? (get "s=")).getD []
-  { kind := kind, widths := widths, words := words,
+  let classes := (get "k=").toList.toArray
+  let cls : Nat → Char := fun a => classes.getD a 'O'
+  let cs := clUax cls start
+  let sw := (commaNats? (get "W=")).getD []
+  { kind := kind, widths := widths, words := words, classes := classes, cw := cs.zip sw,
     tf := TextField.insertString TextField.new start |> fun t => if start.isEmpty then TextField.new else t,
     ti := if start.isEmpty then TextInput.new else TextInput.setContent TextInput.new start,
-    ed := ⟨start, start.length⟩ }
+    ed := ⟨start, start.length⟩,
+    tfc := if start.isEmpty then TextFieldCl.new else TextFieldCl.insertString (clUax cls) TextFieldCl.new start,
+    tic := if start.isEmpty then TextInputCl.new else TextInputCl.setContent (clUax cls) TextInputCl.new start,
+    edc := ⟨cs, cs.length⟩ }
 
 def step (s : St) (line : String) : St × String :=
   let (op, impl) := splitTab line
@@ -189,6 +394,11 @@ def step (s : St) (line : String) : St × String :=
   | _ =>
     if s.kind = "tf" then stepTF s fs impl
     else if s.kind = "ti" then stepTI s fs impl
+    else if s.kind = "tfc" ∨ s.kind = "tic" then
+      let wf := fs.find? (·.startsWith "W=")
+      let fs := fs.filter (fun f => !f.startsWith "W=")
+      let s := learnWidths s wf impl
+      if s.kind = "tfc" then stepTFC s fs impl else stepTIC s fs impl
     else (s, "bad-op\tbad-op\tbad-op")
 
 def main : IO Unit := foldLoop ({} : St) step
